@@ -380,8 +380,24 @@ func vGenCtr(rng *rand.Rand, p *vPod, n int, machineCPUs int) *vCtr {
 	if rng.Intn(20) == 0 {
 		p.ann["memory.preserve."+vKey+"/container."+c.name] = "true"
 	}
+	if vMemHeavy && len(vNodeMem) > 0 {
+		// memory-pressure histories: requests sized relative to a NUMA node, so that zones get
+		// overcommitted and the allocator moves other containers' allocations to wider zones
+		if rng.Intn(2) == 0 {
+			c.mem = vNodeMem[rng.Intn(len(vNodeMem))] * int64(30+rng.Intn(45)) / 100
+		}
+		if rng.Intn(6) == 0 {
+			p.ann["memory.preserve."+vKey+"/container."+c.name] = "true"
+		}
+	}
 	return c
 }
+
+// per-history generator mode (set by TestVerifTAHistories)
+var (
+	vMemHeavy bool
+	vNodeMem  []int64
+)
 
 // ---- event execution
 
@@ -653,6 +669,12 @@ func TestVerifTAHistories(t *testing.T) {
 		fmt.Fprintf(w, "E init\nR ok - -\n")
 		h.vAfter(w)
 		wd := &vWorld{pods: map[string]*vPod{}, ctrs: map[string]*vCtr{}}
+		vMemHeavy, vNodeMem = i%3 == 1, nil
+		for _, nd := range m.Nodes {
+			if nd.HasMemory && nd.MemTotal > 0 {
+				vNodeMem = append(vNodeMem, int64(nd.MemTotal)*1024)
+			}
+		}
 		h.vRunHistory(w, rng, wd, 8+rng.Intn(40), len(m.Online()), i%4 == 3)
 		fmt.Fprintf(w, "Q drain\n")
 		h.vDrain(w, wd)
